@@ -108,7 +108,7 @@ static struct maybe_area find_area(const RegisterTable*,
                                    RegisterAddress);
 static struct maybe_register find_reg(const RegisterTable*t,
                                       RegisterHandle, RegisterHandle,
-                                      RegisterAddress);
+                                      RegisterAddress, RegisterOffset);
 static RegisterAccess reg_iterate(RegisterTable*,
                                   RegisterHandle, RegisterAddress,
                                   registerCallback, void*);
@@ -1753,14 +1753,17 @@ find_area(const RegisterTable *t,
 static struct maybe_register
 find_reg(const RegisterTable *t,
          RegisterHandle first, RegisterHandle last,
-         RegisterAddress addr)
+         RegisterAddress addr, RegisterOffset n)
 {
     struct maybe_register rv = { .valid = true, .handle = 0 };
 
     for (RegisterHandle i = first; i <= last; i++) {
-        if (reg_range_touches(t->entry + i, addr, 1u) == 0) {
+        const int touch = reg_range_touches(t->entry + i, addr, n);
+        if (touch == 0) {
             rv.handle = i;
             return rv;
+        } else if (touch > 0) {
+            break;
         }
     }
 
@@ -1848,12 +1851,13 @@ register_foreach_in(RegisterTable *t,
     struct maybe_area startarea = find_area(t, 0, t->areas - 1u, addr);
     struct maybe_register startreg;
 
-    if (startarea.valid) {
+    if (startarea.valid && t->area[startarea.handle].entry.count > 0u) {
+        /* Entries are sorted: nothing in front of this area's first entry can
+         * be part of the range. The range may reach into later areas. */
         const RegisterHandle first = t->area[startarea.handle].entry.first;
-        const RegisterHandle last = t->area[startarea.handle].entry.last;
-        startreg = find_reg(t, first, last, addr);
+        startreg = find_reg(t, first, t->entries - 1u, addr, off);
     } else {
-        startreg = find_reg(t, 0, t->entries - 1u, addr);
+        startreg = find_reg(t, 0, t->entries - 1u, addr, off);
     }
 
     if (startreg.valid == false) {
